@@ -1,15 +1,25 @@
 //! C04 — drives the real `fxprof-processed-profile` sample / counter tables through the public API
-//! (`Profile::{add_process, add_thread, add_sample, add_sample_same_stack_zero_cpu, add_counter,
-//! add_counter_sample}`) and reads the tables back from `serde_json::to_value(&profile)`.
+//! (`Profile::{add_process, add_thread, add_sample, add_sample_same_stack_zero_cpu, add_allocation_sample,
+//! add_marker, set_marker_stack, set_thread_samples_weight_type, add_counter, add_counter_sample}`) and reads the
+//! tables back from `serde_json::to_value(&profile)` — at every `ser` op and once more at the end.
 //!
-//! ops:  `add <t_ns> <none|k> <cpu_ns> <weight>` | `merge <t_ns> <weight>` | `addc <t_ns> <value> <n>`
-//! out:  `len …` / `deltas …` / `row <time> <stack> <weight> <cpu_us>`* / `clen …` / `cdeltas …` /
-//!       `crow <time> <count> <number>`*   or   `panic op <j>` | `panic serialize`
+//! Layout of every case (mirrored by `C04.procs` / `C04.nCounters` in lean/SamplyModel/Iface/C04.lean): a decoy
+//! process with a decoy thread and a decoy counter (created first, one sample each, so that handle index 0 is never a
+//! table under test), process P with threads 0 and 1, process Q with thread 2, counters 0 and 1.
+//!
+//! ops:  `add[@i] <t_ns> <none|k> <cpu_ns> <weight>` | `merge[@i] <t_ns> <weight>` | `alloc@<i> <t_ns> <none|k> <addr> <size>`
+//!       | `marker@<i> <t_ns> <none|k>` | `wtype@<i> <0|1|2>` | `addc[@j] <t_ns> <value> <n>` | `ser`
+//! out:  per snapshot `snap <k>` and, per thread, `t<i> len …` / `t<i> deltas …` / `t<i> row <time> <stack> <weight> <cpu_us>`*
+//!       / `t<i> meta <weightType> <#markers>` / `t<i> allocs …` / `t<i> arow …`*; per counter `c<j> clen …` /
+//!       `c<j> cdeltas …` / `c<j> crow <time> <count> <number>`*;   or   `panic op <j>` | `panic serialize`
 //! (see lean/SamplyModel/Iface/C04.lean). Millisecond floats are converted back to integer nanoseconds by
 //! `round(x * 1e6)`; all generated timestamps are < 2^40 ns so that this is exact. Rows of equal time are
-//! sorted (the implementation's sort is unstable: tie groups are compared as multisets).
+//! sorted (the implementation's sort is unstable: tie groups are compared as multisets). Counter values are `f64`
+//! tokens: an integer (|v| <= 2^53), `-0.0`, `f<bits>` for everything else, `null` for what serde_json writes for a
+//! non-finite number.
 use fxprof_processed_profile::{
-    CategoryHandle, CpuDelta, FrameFlags, Profile, ReferenceTimestamp, SamplingInterval, StackHandle, Timestamp,
+    Category, CategoryColor, CategoryHandle, CounterHandle, CpuDelta, FrameFlags, MarkerTiming, Profile, ReferenceTimestamp,
+    SamplingInterval, StackHandle, StaticSchemaMarker, StaticSchemaMarkerField, StringHandle, ThreadHandle, Timestamp, WeightType,
 };
 use serde_json::Value;
 use std::panic::{catch_unwind, AssertUnwindSafe};
@@ -106,6 +116,77 @@ fn int_of(v: &Value) -> Option<i128> {
     }
 }
 
+/// canonical token of an `f64` (the same classes as `C04.cvalOfBits`)
+fn canon_token(x: f64) -> String {
+    if x == 0.0 {
+        return if x.is_sign_negative() { "-0.0".to_string() } else { "0".to_string() };
+    }
+    if x.is_finite() && x.fract() == 0.0 && x.abs() <= 9007199254740992.0 {
+        return format!("{}", x as i128);
+    }
+    format!("f{:016x}", x.to_bits())
+}
+
+fn f64_of_token(s: &str) -> f64 {
+    if s == "-0.0" {
+        -0.0
+    } else if let Some(h) = s.strip_prefix('f') {
+        f64::from_bits(u64::from_str_radix(h, 16).unwrap())
+    } else {
+        s.parse::<i64>().unwrap() as f64
+    }
+}
+
+/// (sort key, token) of a serialized counter value
+fn count_token(v: &Value) -> ((u8, i128), String) {
+    match v {
+        Value::Null => ((3, 0), "null".to_string()),
+        _ => match v.as_f64() {
+            Some(x) => {
+                let t = canon_token(x);
+                let key = if t == "-0.0" {
+                    (1, 0)
+                } else if t.starts_with('f') {
+                    (2, x.to_bits() as i128)
+                } else {
+                    (0, t.parse::<i128>().unwrap())
+                };
+                (key, t)
+            }
+            None => ((4, 0), format!("?{v}")),
+        },
+    }
+}
+
+struct Mk {
+    name: StringHandle,
+}
+impl StaticSchemaMarker for Mk {
+    const UNIQUE_MARKER_TYPE_NAME: &'static str = "C04Marker";
+    const CATEGORY: Category<'static> = Category("C04Cat", CategoryColor::Green);
+    const FIELDS: &'static [StaticSchemaMarkerField] = &[];
+    fn name(&self, _p: &mut Profile) -> StringHandle {
+        self.name
+    }
+    fn string_field_value(&self, _i: u32) -> StringHandle {
+        unreachable!()
+    }
+    fn number_field_value(&self, _i: u32) -> f64 {
+        unreachable!()
+    }
+}
+
+const NTHREADS: usize = 3;
+const NCOUNTERS: usize = 2;
+
+/// `add@2` -> ("add", 2); `add` -> ("add", 0)
+fn split_target(w: &str) -> (&str, usize) {
+    match w.split_once('@') {
+        Some((a, i)) => (a, i.parse().unwrap()),
+        None => (w, 0),
+    }
+}
+
 impl C04 {
     fn exhaustive_thread(&self, len: usize, full: bool, out: &mut Vec<Case>) {
         // alphabet per step: add × timestamps {0..3} × cpu choices (× stack choices when `full`), merge × timestamps
@@ -177,6 +258,82 @@ impl C04 {
     }
 }
 
+impl C04 {
+    /// every history of length `len` over: add@{0,1} x t{0,1,2} x cpu{0,5000}, merge@{0,1} x t{0,1,2}, alloc@1 (lands in
+    /// thread 0), marker@0 with another stack, ser
+    fn exhaustive_profile(&self, len: usize, reduced: bool, out: &mut Vec<Case>) {
+        // reduced: add@0 x t{0,1} x cpu{0,5000}, merge@0 x t{0,1}, add@1 1 cpu 0, merge@1 0, alloc@1, ser
+        const REDUCED: [usize; 10] = [0, 2, 6, 8, 12, 14, 3, 13, 18, 20];
+        let alphabet = if reduced { REDUCED.len() } else { 21usize };
+        let mut idx = vec![0usize; len];
+        loop {
+            let mut ops = Vec::with_capacity(len);
+            for (pos, &c) in idx.iter().enumerate() {
+                let w = 1i64 << pos;
+                let c = if reduced { REDUCED[c] } else { c };
+                ops.push(match c {
+                    0..=11 => format!("add@{} {} {} {} {w}", c % 2, (c / 2) % 3, if pos % 2 == 0 { "0" } else { "none" }, if c / 6 == 0 { 0 } else { 5000 }),
+                    12..=17 => format!("merge@{} {} {w}", c % 2, (c - 12) / 2),
+                    18 => "alloc@1 1 2 4096 64".to_string(),
+                    19 => "marker@0 1 2".to_string(),
+                    _ => "ser".to_string(),
+                });
+            }
+            out.push(Case { name: format!("xp{}{}-{}", if reduced { "r" } else { "" }, len, idx.iter().map(|c| format!("{c:02}")).collect::<Vec<_>>().join("")), ops });
+            let mut k = 0;
+            loop {
+                if k == len {
+                    return;
+                }
+                idx[k] += 1;
+                if idx[k] < alphabet {
+                    break;
+                }
+                idx[k] = 0;
+                k += 1;
+            }
+        }
+    }
+}
+
+/// a counter value token: integers, `-0.0`, fractions, neighbours in the last bit, subnormals, huge values, NaN, +-inf
+fn gen_cval(rng: &mut Rng) -> String {
+    let x: f64 = match rng.below(16) {
+        0..=2 => (rng.below(2000) as f64) - 1000.0,
+        3 => -0.0,
+        4 => 0.0,
+        5 => 0.5 * (rng.below(9) as f64 - 4.0),
+        6 => (rng.below(1000) as f64) / 10.0,
+        7 => 1e-9 * (rng.range(1, 9) as f64),
+        8 => f64::from_bits(0.1f64.to_bits() + rng.below(3)),
+        9 => f64::from_bits(rng.range(1, 5)), // subnormal
+        10 => -f64::from_bits(rng.range(1, 5)),
+        11 => 1e300 * (rng.range(1, 9) as f64),
+        12 => 9007199254740992.0 + 2.0 * (rng.below(3) as f64), // integer-valued at / beyond 2^53
+        13 => f64::NAN,
+        14 => if rng.chance(1, 2) { f64::INFINITY } else { f64::NEG_INFINITY },
+        _ => f64::from_bits(rng.next_u64()),
+    };
+    canon_token(x)
+}
+
+fn gen_thread_call(rng: &mut Rng, i: u64, t: u64) -> String {
+    if rng.chance(1, 2) {
+        format!("add@{i} {t} {} {} {}", gen_stack(rng), gen_cpu(rng), gen_weight(rng))
+    } else {
+        format!("merge@{i} {t} {}", gen_weight(rng))
+    }
+}
+
+/// a call of `Thread` other than the two sample calls
+fn gen_neighbour(rng: &mut Rng, i: u64, t: u64) -> String {
+    match rng.below(4) {
+        0..=1 => format!("alloc@{i} {t} {} {} {}", gen_stack(rng), rng.below(1 << 40), rng.below(8192) as i64 - 4096),
+        2 => format!("marker@{i} {t} {}", gen_stack(rng)),
+        _ => format!("wtype@{i} {}", rng.below(3)),
+    }
+}
+
 fn gen_cpu(rng: &mut Rng) -> u64 {
     match rng.below(20) {
         0..=7 => 0,
@@ -213,7 +370,7 @@ impl Prop for C04 {
     fn case_count(&self, tier: Tier) -> u64 {
         match tier {
             Tier::Quick => 6000,
-            Tier::Thorough => 300_000,
+            Tier::Thorough => 200_000,
         }
     }
     fn fixed_cases(&self, tier: Tier) -> Vec<Case> {
@@ -231,10 +388,33 @@ impl Prop for C04 {
         v.push(lit("overflow-pos", &["add 1 none 0 2147483647", "merge 2 1"]));
         v.push(lit("overflow-neg", &["add 3 0 500 -2147483648", "add 1 1 0 5", "merge 2 -2147483647", "merge 2 -7", "add 0 2 0 1"]));
         v.push(lit("overflow-edge-ok", &["add 1 none 0 2147483646", "merge 2 1", "merge 0 -2147483647", "merge 0 -2147483648"]));
-        let (max_full, max_red, max_c) = match tier {
-            Tier::Quick => (3, 4, 5),
-            Tier::Thorough => (4, 5, 7),
+        // --- profile level: serialize in the middle, neighbouring Thread calls, interleaved threads, f64 counter values
+        // out-of-order table, serialize, one more sample, serialize again (a cached sort order would be stale)
+        v.push(lit("ser-cache", &["add 20 0 5000 1", "add 10 1 5000 2", "ser", "add 5 2 5000 4", "ser", "add 30 none 0 8", "merge 7 16", "ser"]));
+        v.push(lit("ser-cache-counter", &["addc 20 1 1", "addc 10 2 2", "ser", "addc 5 3 3", "ser", "addc 30 f3fe0000000000000 4"]));
+        v.push(lit("ser-sorted-then-unsorted", &["add 10 0 0 1", "ser", "merge 20 2", "ser", "add 15 1 0 4", "ser", "addc 3 1 1", "ser", "addc 2 2 2"]));
+        // a call of another kind between `add` and `merge` must not disturb last_sample_stack / last_sample_was_zero_cpu
+        v.push(lit("alloc-between", &["add 10 0 5000 1", "alloc@0 11 2 4096 64", "merge 12 2"]));
+        v.push(lit("alloc-between-zero", &["add 10 0 0 1", "alloc@1 11 2 4096 -64", "merge 12 2", "alloc@0 13 none 8192 1", "merge 14 4"]));
+        v.push(lit("marker-between", &["add@1 10 1 5000 1", "marker@1 11 2", "merge@1 12 2", "wtype@1 2", "merge@1 13 4"]));
+        v.push(lit("alloc-routing", &["alloc@1 5 1 100 10", "alloc@2 6 2 200 -20", "alloc@0 4 none 300 30", "ser", "alloc@2 1 0 400 40"]));
+        // threads interleaved: the merge fields are per thread
+        v.push(lit("interleaved", &["add@0 10 0 5000 1", "add@1 11 2 0 2", "merge@0 12 4", "merge@1 13 8", "add@2 9 1 0 16", "merge@2 8 32", "merge@0 7 64"]));
+        v.push(lit("interleaved-counters", &["addc@0 5 1 1", "addc@1 4 2 2", "addc@0 3 3 3", "addc@1 6 4 4", "ser", "addc@1 1 5 5"]));
+        // f64 counter values: fraction, -0.0 next to 0, neighbours in the last bit, subnormal, huge, NaN, +-inf
+        v.push(lit("counter-f64", &["addc 5 f3fe0000000000000 1", "addc 5 -0.0 2", "addc 5 0 3", "addc 4 f3fb999999999999a 4", "addc 4 f3fb999999999999b 5", "addc 3 f0000000000000001 6", "addc 9 f7e37e43c8800759c 7"]));
+        v.push(lit("counter-nonfinite", &["addc 5 f7ff8000000000000 1", "addc 4 f7ff0000000000000 2", "addc 4 ffff0000000000000 3", "addc 6 1 4"]));
+        v.push(lit("overflow-other-thread", &["add@1 1 none 0 2147483647", "add@0 1 none 0 1", "merge@0 2 2147483646", "ser", "merge@1 2 1"]));
+        let (max_full, max_red, max_c, max_p) = match tier {
+            Tier::Quick => (3, 4, 5, 4),
+            Tier::Thorough => (4, 5, 7, 4),
         };
+        for len in 1..=3 {
+            self.exhaustive_profile(len, false, &mut v);
+        }
+        for len in 4..=max_p {
+            self.exhaustive_profile(len, true, &mut v);
+        }
         for len in 1..=max_full {
             self.exhaustive_thread(len, true, &mut v);
         }
@@ -247,7 +427,7 @@ impl Prop for C04 {
         v
     }
     fn generate(&self, rng: &mut Rng, _tier: Tier, index: u64) -> Vec<String> {
-        let family = index % 8;
+        let family = index % 12;
         let len = if rng.chance(1, 12) { rng.range(80, 400) } else { rng.range(1, 30) } as usize;
         let mut ops = Vec::with_capacity(len);
         match family {
@@ -318,6 +498,65 @@ impl Prop for C04 {
                     ops.push(format!("addc {} {} {}", rng.below(r), gen_weight(rng) * 3 + i as i64, rng.below(1000)));
                 }
             }
+            // 8: three threads and two counters interleaved, neighbouring calls and serializations sprinkled in
+            8 => {
+                let r = *rng.pick(&[3u64, 6, 20]);
+                for _ in 0..len.min(60) {
+                    let t = rng.below(r);
+                    let i = rng.below(NTHREADS as u64);
+                    match rng.below(20) {
+                        0..=10 => ops.push(gen_thread_call(rng, i, t)),
+                        11..=13 => ops.push(format!("addc@{} {t} {} {}", rng.below(NCOUNTERS as u64), gen_cval(rng), rng.below(50))),
+                        14..=16 => ops.push(gen_neighbour(rng, i, t)),
+                        _ => ops.push("ser".to_string()),
+                    }
+                }
+            }
+            // 9: one table goes out of order, is serialized, and grows further (earlier and later samples), several times
+            9 => {
+                let i = rng.below(NTHREADS as u64);
+                let j = rng.below(NCOUNTERS as u64);
+                let counter = rng.chance(1, 3);
+                let mut t = 100 + rng.below(50);
+                for k in 0..len.min(40) {
+                    t = if rng.chance(1, 3) { t.saturating_sub(rng.range(1, 30)) } else { t + rng.below(10) };
+                    if counter {
+                        ops.push(format!("addc@{j} {t} {} {k}", gen_cval(rng)));
+                    } else {
+                        ops.push(gen_thread_call(rng, i, t));
+                    }
+                    if rng.chance(1, 4) {
+                        ops.push("ser".to_string());
+                    }
+                }
+            }
+            // 10: `add` (zero / non-zero cpu), a call of another kind on the same thread / process, `merge`
+            10 => {
+                let mut t = rng.below(100);
+                for _ in 0..len.min(24) {
+                    let i = rng.below(NTHREADS as u64);
+                    t += rng.below(5);
+                    ops.push(format!("add@{i} {t} {} {} {}", gen_stack(rng), if rng.chance(1, 2) { 0 } else { 5000 }, gen_weight(rng)));
+                    for _ in 0..rng.range(1, 2) {
+                        let n = if rng.chance(3, 4) { i } else { rng.below(NTHREADS as u64) };
+                        ops.push(gen_neighbour(rng, n, t + 1));
+                    }
+                    if rng.chance(1, 4) {
+                        ops.push(gen_thread_call(rng, (i + 1) % NTHREADS as u64, t));
+                    }
+                    ops.push(format!("merge@{i} {} {}", t + rng.below(3), gen_weight(rng)));
+                }
+            }
+            // 11: f64 counter values (fractions, -0.0, neighbours, subnormal, huge, non-finite), ties and inversions
+            11 => {
+                let r = *rng.pick(&[2u64, 4, 10, 1000]);
+                for _ in 0..len.min(80) {
+                    ops.push(format!("addc@{} {} {} {}", rng.below(NCOUNTERS as u64), rng.below(r), gen_cval(rng), rng.below(1000)));
+                    if rng.chance(1, 10) {
+                        ops.push("ser".to_string());
+                    }
+                }
+            }
             // 7: the excluded point: weights near the i32 limits, merged
             _ => {
                 let r = *rng.pick(&[3u64, 10]);
@@ -343,48 +582,98 @@ impl Prop for C04 {
     }
     fn execute(&self, ops: &[String], stats: &mut Stats) -> Vec<String> {
         let mut profile = Profile::new("c04", ReferenceTimestamp::from_millis_since_unix_epoch(0.0), SamplingInterval::from_millis(1));
-        let process = profile.add_process("p", 1, ts(0));
-        // a decoy thread and counter, created first, so that picking the wrong table would be noticed
-        let decoy_thread = profile.add_thread(process, 7, ts(0), false);
+        // a decoy process / thread / counter, created first, so that picking the wrong table would be noticed
+        let decoy_process = profile.add_process("decoy", 9, ts(0));
+        let decoy_thread = profile.add_thread(decoy_process, 7, ts(0), false);
         profile.add_sample(decoy_thread, ts(123_456), None, CpuDelta::from_nanos(77_000), 77);
-        let decoy_counter = profile.add_counter(process, "decoy", "cat", "decoy counter");
+        let decoy_counter = profile.add_counter(decoy_process, "decoy", "cat", "decoy counter");
         profile.add_counter_sample(decoy_counter, ts(654_321), 77.0, 77);
-        let thread = profile.add_thread(process, 1, ts(0), true);
-        let counter = profile.add_counter(process, "c04", "cat", "counter under test");
-        let mut stacks: Vec<StackHandle> = Vec::new();
-        for k in 0..NSTACKS {
-            let label = profile.handle_for_string(&format!("s{k}"));
-            let frame = profile.handle_for_frame_with_label(thread, label, CategoryHandle::OTHER, FrameFlags::empty());
-            // s1 is a child of s0, s0 and s2 are roots
-            let parent = if k == 1 { Some(stacks[0]) } else { None };
-            stacks.push(profile.handle_for_stack(thread, frame, parent));
+        let proc_p = profile.add_process("p", 1, ts(0));
+        let proc_q = profile.add_process("q", 2, ts(0));
+        // thread i has tid i + 1; threads 0 and 1 live in process P (0 is created first), thread 2 in process Q
+        let threads: Vec<ThreadHandle> =
+            vec![profile.add_thread(proc_p, 1, ts(0), true), profile.add_thread(proc_p, 2, ts(0), false), profile.add_thread(proc_q, 3, ts(0), true)];
+        let counters: Vec<CounterHandle> =
+            vec![profile.add_counter(proc_p, "c04-0", "cat", "counter under test"), profile.add_counter(proc_q, "c04-1", "cat", "counter under test")];
+        let mut stacks: Vec<Vec<StackHandle>> = Vec::new();
+        for &thread in &threads {
+            let mut st: Vec<StackHandle> = Vec::new();
+            for k in 0..NSTACKS {
+                let label = profile.handle_for_string(&format!("s{k}"));
+                let frame = profile.handle_for_frame_with_label(thread, label, CategoryHandle::OTHER, FrameFlags::empty());
+                // s1 is a child of s0, s0 and s2 are roots
+                let parent = if k == 1 { Some(st[0]) } else { None };
+                st.push(profile.handle_for_stack(thread, frame, parent));
+            }
+            stacks.push(st);
         }
+        let marker_name = profile.handle_for_string("m");
 
-        let mut j = 0usize; // index among thread calls
-        let mut last_zero = false; // statistics only
-        let mut last_t: Option<u64> = None;
+        // statistics only
+        let mut last_zero = [false; NTHREADS];
+        let mut calls = [0usize; NTHREADS];
+        let mut last_t: [Option<u64>; NTHREADS] = [None; NTHREADS];
+        let mut last_kind: [u8; NTHREADS] = [0; NTHREADS]; // 1 = add, 2 = neighbour call after an add
+        let mut last_global_thread: Option<usize> = None;
         let mut inversions = 0u64;
         let mut ties = 0u64;
-        for l in ops {
+        let mut sers = 0u64;
+        let mut unsorted_before_ser = false;
+        let mut grew_after_unsorted_ser = false;
+        let mut out = Vec::new();
+        let mut snap = 0usize;
+        for (j, l) in ops.iter().enumerate() {
             let w: Vec<&str> = l.split_whitespace().collect();
-            let r = catch_unwind(AssertUnwindSafe(|| match w[0] {
+            let (tag, i) = split_target(w[0]);
+            if tag == "ser" {
+                stats.bump("op_ser");
+                sers += 1;
+                if inversions > 0 {
+                    unsorted_before_ser = true;
+                }
+                match self.snapshot(&profile, snap, stats) {
+                    Ok(mut lines) => out.append(&mut lines),
+                    Err(e) => return vec![e],
+                }
+                snap += 1;
+                continue;
+            }
+            let stack_of = |s: &str| if s == "none" { None } else { Some(stacks[i][s.parse::<usize>().unwrap()]) };
+            let r = catch_unwind(AssertUnwindSafe(|| match tag {
                 "add" => {
                     let t: u64 = w[1].parse().unwrap();
-                    let stack = if w[2] == "none" { None } else { Some(stacks[w[2].parse::<usize>().unwrap()]) };
                     let cpu: u64 = w[3].parse().unwrap();
                     let weight: i32 = w[4].parse().unwrap();
-                    profile.add_sample(thread, ts(t), stack, CpuDelta::from_nanos(cpu), weight);
+                    profile.add_sample(threads[i], ts(t), stack_of(w[2]), CpuDelta::from_nanos(cpu), weight);
                 }
                 "merge" => {
                     let t: u64 = w[1].parse().unwrap();
                     let weight: i32 = w[2].parse().unwrap();
-                    profile.add_sample_same_stack_zero_cpu(thread, ts(t), weight);
+                    profile.add_sample_same_stack_zero_cpu(threads[i], ts(t), weight);
+                }
+                "alloc" => {
+                    let t: u64 = w[1].parse().unwrap();
+                    let addr: u64 = w[3].parse().unwrap();
+                    let size: i64 = w[4].parse().unwrap();
+                    profile.add_allocation_sample(threads[i], ts(t), stack_of(w[2]), addr, size);
+                }
+                "marker" => {
+                    let t: u64 = w[1].parse().unwrap();
+                    let m = profile.add_marker(threads[i], MarkerTiming::Instant(ts(t)), Mk { name: marker_name });
+                    profile.set_marker_stack(threads[i], m, stack_of(w[2]));
+                }
+                "wtype" => {
+                    let k: u8 = w[1].parse().unwrap();
+                    profile.set_thread_samples_weight_type(threads[i], match k {
+                        0 => WeightType::Samples,
+                        1 => WeightType::TracingMs,
+                        _ => WeightType::Bytes,
+                    });
                 }
                 "addc" => {
                     let t: u64 = w[1].parse().unwrap();
-                    let value: i64 = w[2].parse().unwrap();
                     let n: u32 = w[3].parse().unwrap();
-                    profile.add_counter_sample(counter, ts(t), value as f64, n);
+                    profile.add_counter_sample(counters[i], ts(t), f64_of_token(w[2]), n);
                 }
                 other => panic!("bad op {other}"),
             }));
@@ -392,19 +681,31 @@ impl Prop for C04 {
                 stats.bump("panic_in_call");
                 return vec![format!("panic op {j}")];
             }
-            match w[0] {
+            if unsorted_before_ser && matches!(tag, "add" | "merge" | "addc") {
+                grew_after_unsorted_ser = true;
+            }
+            match tag {
                 "add" | "merge" => {
-                    j += 1;
+                    calls[i] += 1;
+                    if i != 0 {
+                        stats.bump("thread_call_not_on_thread_0");
+                    }
+                    if let Some(g) = last_global_thread {
+                        if g != i {
+                            stats.bump("thread_call_after_call_on_other_thread");
+                        }
+                    }
+                    last_global_thread = Some(i);
                     let t: u64 = w[1].parse().unwrap();
-                    if let Some(lt) = last_t {
+                    if let Some(lt) = last_t[i] {
                         if t < lt {
                             inversions += 1;
                         } else if t == lt {
                             ties += 1;
                         }
                     }
-                    last_t = Some(t);
-                    if w[0] == "add" {
+                    last_t[i] = Some(t);
+                    if tag == "add" {
                         let cpu: u64 = w[3].parse().unwrap();
                         stats.bump("op_add");
                         if cpu == 0 {
@@ -417,16 +718,39 @@ impl Prop for C04 {
                         if w[2] == "none" {
                             stats.bump("add_stack_none");
                         }
-                        last_zero = cpu < 1000;
+                        last_zero[i] = cpu < 1000;
+                        last_kind[i] = 1;
                     } else {
-                        stats.bump(if last_zero { "op_merge_extends_last" } else if j == 1 { "op_merge_first_call" } else { "op_merge_appends" });
-                        last_zero = true;
+                        stats.bump(if last_zero[i] { "op_merge_extends_last" } else if calls[i] == 1 { "op_merge_first_call" } else { "op_merge_appends" });
+                        if last_kind[i] == 2 {
+                            stats.bump("merge_after_add_then_neighbour_call");
+                        }
+                        last_zero[i] = true;
+                        last_kind[i] = 0;
                     }
                     if w.last().map(|s| s.starts_with('-')).unwrap_or(false) {
                         stats.bump("negative_weight");
                     }
                 }
-                _ => stats.bump("op_addc"),
+                "alloc" | "marker" | "wtype" => {
+                    stats.bump(&format!("op_{tag}"));
+                    // the allocation sample lands in the first thread of the process
+                    let target = if tag == "alloc" && i == 1 { 0 } else { i };
+                    if last_kind[target] == 1 {
+                        last_kind[target] = 2;
+                    }
+                }
+                _ => {
+                    stats.bump("op_addc");
+                    let v = w[2];
+                    stats.bump(if v == "-0.0" {
+                        "addc_value_negative_zero"
+                    } else if let Some(h) = v.strip_prefix('f') {
+                        if f64::from_bits(u64::from_str_radix(h, 16).unwrap()).is_finite() { "addc_value_non_integer_f64" } else { "addc_value_non_finite" }
+                    } else {
+                        "addc_value_integer"
+                    });
+                }
             }
         }
         stats.add("thread_call_inversions", inversions);
@@ -434,29 +758,53 @@ impl Prop for C04 {
         if inversions > 0 {
             stats.bump("cases_with_thread_inversion");
         }
+        if sers > 0 {
+            stats.bump("cases_with_ser_in_the_middle");
+        }
+        if grew_after_unsorted_ser {
+            stats.bump("cases_with_table_growing_after_unsorted_ser");
+        }
+        if calls.iter().filter(|c| **c > 0).count() > 1 {
+            stats.bump("cases_with_several_sampled_threads");
+        }
+        match self.snapshot(&profile, snap, stats) {
+            Ok(mut lines) => out.append(&mut lines),
+            Err(e) => return vec![e],
+        }
+        out
+    }
+    fn nontrivial(&self, ops: &[String], out: &[String]) -> bool {
+        // at least two calls and either two serialized rows or the excluded-point panic
+        ops.len() >= 2 && (out.iter().filter(|l| l.contains(" row ") || l.contains(" crow ")).count() >= 2 || out.iter().any(|l| l.starts_with("panic")))
+    }
+}
 
-        let v = match catch_unwind(AssertUnwindSafe(|| serde_json::to_value(&profile))) {
+impl C04 {
+    /// `serde_json::to_value(&profile)` and the canonical lines of the tables under test
+    fn snapshot(&self, profile: &Profile, k: usize, stats: &mut Stats) -> Result<Vec<String>, String> {
+        let v = match catch_unwind(AssertUnwindSafe(|| serde_json::to_value(profile))) {
             Ok(Ok(v)) => v,
-            Ok(Err(_)) => return vec!["err:serialize".to_string()],
+            Ok(Err(_)) => return Err("err:serialize".to_string()),
             Err(_) => {
                 stats.bump("panic_in_serialize");
-                return vec!["panic serialize".to_string()];
+                return Err("panic serialize".to_string());
             }
         };
-        let mut out = Vec::new();
-        // --- thread under test: tid "1"
-        let t = arr(&v, "threads").iter().find(|t| t.get("tid").map(|x| x.to_string().trim_matches('"') == "1").unwrap_or(false));
-        let Some(t) = t else { return vec!["err:no-thread".to_string()] };
-        let s = &t["samples"];
-        let (stack, deltas, weight, cpu) = (arr(s, "stack"), arr(s, "timeDeltas"), arr(s, "weight"), arr(s, "threadCPUDelta"));
-        let length = s.get("length").and_then(|x| x.as_u64()).map(|x| x.to_string()).unwrap_or("?".into());
-        out.push(format!("len {length} {} {} {} {}", stack.len(), deltas.len(), weight.len(), cpu.len()));
-        let d: Vec<Option<i128>> = deltas.iter().map(ns_of_ms).collect();
-        out.push(deltas_line("deltas", &d));
-        if stack.len() == d.len() && weight.len() == d.len() && cpu.len() == d.len() {
-            let mut payload = Vec::with_capacity(d.len());
-            for i in 0..d.len() {
-                let (skey, sname) = match &stack[i] {
+        let mut out = vec![format!("snap {k}")];
+        for i in 0..NTHREADS {
+            let tid = format!("{}", i + 1);
+            let t = arr(&v, "threads").iter().find(|t| t.get("tid").map(|x| x.to_string().trim_matches('"') == tid).unwrap_or(false));
+            let Some(t) = t else { return Err(format!("err:no-thread-{i}")) };
+            let p = format!("t{i}");
+            let start = out.len();
+            let s = &t["samples"];
+            let (stack, deltas, weight, cpu) = (arr(s, "stack"), arr(s, "timeDeltas"), arr(s, "weight"), arr(s, "threadCPUDelta"));
+            let length = s.get("length").and_then(|x| x.as_u64()).map(|x| x.to_string()).unwrap_or("?".into());
+            out.push(format!("{p} len {length} {} {} {} {}", stack.len(), deltas.len(), weight.len(), cpu.len()));
+            let d: Vec<Option<i128>> = deltas.iter().map(ns_of_ms).collect();
+            out.push(deltas_line(&format!("{p} deltas"), &d));
+            let stack_name = |x: &Value| -> (u64, String) {
+                match x {
                     Value::Null => (0u64, "none".to_string()),
                     x => match x.as_u64() {
                         Some(idx) => {
@@ -465,45 +813,82 @@ impl Prop for C04 {
                         }
                         None => (u64::MAX, format!("?{x}")),
                     },
-                };
-                let wv = int_of(&weight[i]);
-                let cv = int_of(&cpu[i]);
-                let ws = wv.map(|x| x.to_string()).unwrap_or(format!("?{}", weight[i]));
-                let cs = cv.map(|x| x.to_string()).unwrap_or(format!("?{}", cpu[i]));
-                payload.push(((skey, wv.unwrap_or(0), cv.unwrap_or(0)), format!("{sname} {ws} {cs}")));
+                }
+            };
+            if stack.len() == d.len() && weight.len() == d.len() && cpu.len() == d.len() {
+                let mut payload = Vec::with_capacity(d.len());
+                for r in 0..d.len() {
+                    let (skey, sname) = stack_name(&stack[r]);
+                    let wv = int_of(&weight[r]);
+                    let cv = int_of(&cpu[r]);
+                    let ws = wv.map(|x| x.to_string()).unwrap_or(format!("?{}", weight[r]));
+                    let cs = cv.map(|x| x.to_string()).unwrap_or(format!("?{}", cpu[r]));
+                    payload.push(((skey, wv.unwrap_or(0), cv.unwrap_or(0)), format!("{sname} {ws} {cs}")));
+                }
+                emit_rows(&format!("{p} row"), &d, payload, &mut out);
             }
-            emit_rows("row", &d, payload, &mut out);
-        }
-        stats.add("rows_serialized", d.len() as u64);
-        if d.iter().skip(1).any(|x| *x == Some(0)) {
-            stats.bump("cases_with_tie_in_output");
-        }
-        // --- counter under test: name "c04"
-        let c = arr(&v, "counters").iter().find(|c| c.get("name").and_then(|x| x.as_str()) == Some("c04"));
-        let Some(c) = c else { return vec!["err:no-counter".to_string()] };
-        let s = &c["samples"];
-        let (count, number, deltas) = (arr(s, "count"), arr(s, "number"), arr(s, "timeDeltas"));
-        let length = s.get("length").and_then(|x| x.as_u64()).map(|x| x.to_string()).unwrap_or("?".into());
-        out.push(format!("clen {length} {} {} {}", count.len(), number.len(), deltas.len()));
-        let d: Vec<Option<i128>> = deltas.iter().map(ns_of_ms).collect();
-        out.push(deltas_line("cdeltas", &d));
-        if count.len() == d.len() && number.len() == d.len() {
-            let mut payload = Vec::with_capacity(d.len());
-            for i in 0..d.len() {
-                let cv = int_of(&count[i]);
-                let nv = int_of(&number[i]);
-                let cs = cv.map(|x| x.to_string()).unwrap_or(format!("?{}", count[i]));
-                let ns = nv.map(|x| x.to_string()).unwrap_or(format!("?{}", number[i]));
-                payload.push(((cv.unwrap_or(0), nv.unwrap_or(0)), format!("{cs} {ns}")));
+            stats.add("rows_serialized", d.len() as u64);
+            if d.iter().skip(1).any(|x| *x == Some(0)) {
+                stats.bump("snapshots_with_tie_in_output");
             }
-            emit_rows("crow", &d, payload, &mut out);
+            let wt = match s.get("weightType").and_then(|x| x.as_str()) {
+                Some("samples") => "0".to_string(),
+                Some("tracing-ms") => "1".to_string(),
+                Some("bytes") => "2".to_string(),
+                other => format!("?{other:?}"),
+            };
+            let nm = t.get("markers").and_then(|m| m.get("length")).and_then(|x| x.as_u64()).map(|x| x.to_string()).unwrap_or("?".into());
+            out.push(format!("{p} meta {wt} {nm}"));
+            if let Some(a) = t.get("nativeAllocations") {
+                let (time, weight, stack, addr, tidc) = (arr(a, "time"), arr(a, "weight"), arr(a, "stack"), arr(a, "memoryAddress"), arr(a, "threadId"));
+                let length = a.get("length").and_then(|x| x.as_u64()).map(|x| x.to_string()).unwrap_or("?".into());
+                out.push(format!("{p} allocs {length} {} {} {} {} {}", time.len(), weight.len(), stack.len(), addr.len(), tidc.len()));
+                if weight.len() == time.len() && stack.len() == time.len() && addr.len() == time.len() {
+                    for r in 0..time.len() {
+                        let tn = ns_of_ms(&time[r]).map(|x| x.to_string()).unwrap_or("nan".into());
+                        let (_, sname) = stack_name(&stack[r]);
+                        let ad = int_of(&addr[r]).map(|x| x.to_string()).unwrap_or(format!("?{}", addr[r]));
+                        let sz = int_of(&weight[r]).map(|x| x.to_string()).unwrap_or(format!("?{}", weight[r]));
+                        out.push(format!("{p} arow {tn} {sname} {ad} {sz}"));
+                    }
+                }
+                stats.add("allocation_rows_serialized", time.len() as u64);
+            }
+            // a thread nothing has happened to: one line
+            if out.len() == start + 3 && out[start] == format!("{p} len 0 0 0 0 0") && out[start + 1] == format!("{p} deltas") && out[start + 2] == format!("{p} meta 0 0") {
+                out.truncate(start);
+                out.push(format!("{p} empty"));
+            }
         }
-        stats.add("counter_rows_serialized", d.len() as u64);
-        out
-    }
-    fn nontrivial(&self, ops: &[String], out: &[String]) -> bool {
-        // at least two calls and either two serialized rows or the excluded-point panic
-        ops.len() >= 2 && (out.iter().filter(|l| l.starts_with("row ") || l.starts_with("crow ")).count() >= 2 || out.iter().any(|l| l.starts_with("panic")))
+        for j in 0..NCOUNTERS {
+            let name = format!("c04-{j}");
+            let c = arr(&v, "counters").iter().find(|c| c.get("name").and_then(|x| x.as_str()) == Some(name.as_str()));
+            let Some(c) = c else { return Err(format!("err:no-counter-{j}")) };
+            let p = format!("c{j}");
+            let start = out.len();
+            let s = &c["samples"];
+            let (count, number, deltas) = (arr(s, "count"), arr(s, "number"), arr(s, "timeDeltas"));
+            let length = s.get("length").and_then(|x| x.as_u64()).map(|x| x.to_string()).unwrap_or("?".into());
+            out.push(format!("{p} clen {length} {} {} {}", count.len(), number.len(), deltas.len()));
+            let d: Vec<Option<i128>> = deltas.iter().map(ns_of_ms).collect();
+            out.push(deltas_line(&format!("{p} cdeltas"), &d));
+            if count.len() == d.len() && number.len() == d.len() {
+                let mut payload = Vec::with_capacity(d.len());
+                for r in 0..d.len() {
+                    let (ckey, cs) = count_token(&count[r]);
+                    let nv = int_of(&number[r]);
+                    let ns = nv.map(|x| x.to_string()).unwrap_or(format!("?{}", number[r]));
+                    payload.push(((ckey, nv.unwrap_or(0)), format!("{cs} {ns}")));
+                }
+                emit_rows(&format!("{p} crow"), &d, payload, &mut out);
+            }
+            stats.add("counter_rows_serialized", d.len() as u64);
+            if out.len() == start + 2 && out[start] == format!("{p} clen 0 0 0 0") && out[start + 1] == format!("{p} cdeltas") {
+                out.truncate(start);
+                out.push(format!("{p} empty"));
+            }
+        }
+        Ok(out)
     }
 }
 
